@@ -49,6 +49,7 @@ type result struct {
 	tbl                                                     *table
 	tree1                                                   fuefi.Firmware // re-parsed saved image (for the validity oracle)
 	tail24                                                  string         // diagnosis of a saved image the tool cannot read back
+	hdrs                                                    string         // regenerated headers of the saved tree: "ok" or the first inconsistency (sechdr.go)
 }
 
 var tmpDir string
@@ -162,8 +163,13 @@ func volumes(f fuefi.Firmware) []volInfo {
 }
 
 // runFiano executes the case.
-func runFiano(x []byte, cfg string, edits []ue.Op) *result {
+func runFiano(x []byte, cfg string, edits []ue.Op) *result { return runFianoOpt(x, cfg, edits, false) }
+
+// runFianoOpt: `lite` (images of 16 MiB and more, oracle-only) leaves out what only the model
+// comparison needs: the codec tables (every payload as hex) and the second in-memory save.
+func runFianoOpt(x []byte, cfg string, edits []ue.Op, lite bool) *result {
 	res := &result{tbl: newTable()}
+	res.tbl.lite = lite
 	dir := scratchDir()
 	ents, _ := os.ReadDir(dir)
 	for _, e := range ents {
@@ -244,9 +250,12 @@ func runFiano(x []byte, cfg string, edits []ue.Op) *result {
 	// what a reader of the saved image will hand to the decoders (needed even if fiano's own re-parse fails)
 	res.tbl.collectDecAssembled(tB)
 	res.tail24 = tail24(tB)
-	quietly(func() { res.resave, res.r1 = saveTo(tB, filepath.Join(dir, "out1b.rom")) })
-	if res.resave.class == "ok" {
-		res.tbl.collectEncTree(tB)
+	res.hdrs = regeneratedHeaders(tB)
+	if !lite {
+		quietly(func() { res.resave, res.r1 = saveTo(tB, filepath.Join(dir, "out1b.rom")) })
+		if res.resave.class == "ok" {
+			res.tbl.collectEncTree(tB)
+		}
 	}
 
 	// C: re-parse what was written, save again
